@@ -3,6 +3,7 @@ package props
 import (
 	"encoding/hex"
 	"fmt"
+	"strings"
 
 	"github.com/koron-go/z80"
 	"github.com/koron-go/z80/verifsim/gen"
@@ -25,6 +26,11 @@ type C07Sc struct {
 	IOSeed   uint64        `json:"io_seed"`
 	// NilHandlers: the host registers no RETN/RETI notification handlers (nil interface values)
 	NilHandlers bool `json:"nil_handlers,omitempty"`
+	// Swap: host replaces cpu.Memory/cpu.IO by equal-content devices before every Step (1) or copies the CPU struct too (2)
+	Swap int `json:"swap,omitempty"`
+	// Dumb: the program runs directly on the library's DumbMemory (full size) instead of the recording
+	// device; ports stay on the recording device. Boundary-placed events only.
+	Dumb bool `json:"dumb,omitempty"`
 	// enumerate: every boundary x each of Kinds. schedule: exactly Events.
 	Kinds  []world.Event `json:"kinds,omitempty"`
 	Events []world.Event `json:"events,omitempty"`
@@ -190,6 +196,11 @@ func (c07) Gen(r *world.Rng, tier string, n int) interface{} {
 	sc.Handlers, sc.Table, sc.Pushes, sc.HSteps = hs.Handlers, hs.Table, hs.Pushes, hs.HSteps
 	kinds := hs.Kinds
 	sc.NilHandlers = r.Chance(1, 4)
+	if r.Chance(1, 12) {
+		sc.Swap = r.Range(1, 2)
+	} else if r.Chance(1, 8) {
+		sc.Dumb = true
+	}
 	if n%4 != 3 {
 		sc.Mode = "enumerate"
 		sc.Kinds = kinds
@@ -207,7 +218,7 @@ func (c07) Gen(r *world.Rng, tier string, n int) interface{} {
 		}
 		haveNMI = haveNMI || ev.Kind == world.EvNMI
 		switch x := r.Intn(8); {
-		case x < 2:
+		case x < 2 && !sc.Dumb:
 			ev.AtTick = uint64(r.Range(1, 1500))
 		case x == 2 && i > 0 && !sc.NilHandlers:
 			ev.OnRet = true // daisy chain: raised from inside the RETI/RETN notification of an earlier handler
@@ -252,27 +263,53 @@ func c07Run(sc *C07Sc, evs []world.Event, budget int, env *Env) (*c07Final, *Vio
 	if sc.NilHandlers {
 		m.CPU.RETNHandler, m.CPU.RETIHandler = nil, nil
 	}
+	if len(evs) > 0 {
+		m.SwapMode = sc.Swap // the undisturbed reference run keeps its devices
+	}
+	var dm z80.DumbMemory
+	if sc.Dumb {
+		dm = make(z80.DumbMemory, 65536)
+		copy(dm, m.Bus.Mem[:])
+		m.CPU.Memory = dm
+	}
+	peek := func(a uint16) uint8 {
+		if dm != nil {
+			return dm[a]
+		}
+		return m.Bus.Mem[a]
+	}
+	poke := func(a uint16, v uint8) {
+		if dm != nil {
+			dm[a] = v
+			return
+		}
+		m.Bus.Mem[a] = v
+	}
 	f := &c07Final{}
 	for {
 		if m.Steps >= budget {
 			return nil, viol("liveness", "not parked on the final HALT at %04x after %d Steps (PC=%04x, slot=%s, accepted=%d)", sc.Prog.HaltAddr, m.Steps, m.CPU.PC, world.FmtRequest(m.CPU.Interrupt), m.Accepted)
 		}
 		si := m.Step()
+		if dm != nil {
+			// no memory history on the bare library type: parked = the Step left PC on the program's HALT opcode
+			si.Halted = !si.Accepted && si.Before.PC == sc.Prog.HaltAddr && m.CPU.PC == sc.Prog.HaltAddr && dm[m.CPU.PC] == 0x76
+		}
 		if si.Accepted {
 			cls := "running"
-			if si.Before.PC == sc.Prog.HaltAddr && m.Bus.Mem[si.Before.PC] == 0x76 {
+			if si.Before.PC == sc.Prog.HaltAddr && peek(si.Before.PC) == 0x76 {
 				cls = "parked-on-HALT"
-			} else if op := m.Bus.Mem[si.Before.PC]; op == 0xed && m.Bus.Mem[si.Before.PC+1]&0xf4 == 0xb0 {
+			} else if op := peek(si.Before.PC); op == 0xed && peek(si.Before.PC+1)&0xf4 == 0xb0 {
 				cls = "inside-block-repeat"
 			} else if si.Before.PC >= c07HBase && si.Before.PC < c07HBase+0x1000 || si.Before.PC < 0x100 {
 				cls = "inside-handler(nested)"
-			} else if m.Bus.Mem[si.Before.PC-1] == 0xfb {
+			} else if peek(si.Before.PC-1) == 0xfb {
 				cls = "right-after-EI"
 			} else if !si.Before.IFF1 {
 				cls = "inside-DI-section"
 			} else if si.Before.PC >= gen.SubBase && si.Before.PC < c07HBase {
 				cls = "inside-subroutine"
-			} else if op := m.Bus.Mem[si.Before.PC]; op == 0x10 || op == 0xc1 {
+			} else if op := peek(si.Before.PC); op == 0x10 || op == 0xc1 {
 				cls = "inside-DJNZ-loop"
 			}
 			kind := "NMI"
@@ -283,15 +320,15 @@ func c07Run(sc *C07Sc, evs []world.Event, budget int, env *Env) (*c07Final, *Vio
 			// mode 0: the resume address handed to the handler
 			if si.Req.Type != z80.NMIType && si.Before.IM == 0 {
 				sp := m.CPU.SP
-				pushed := uint16(m.Bus.Mem[sp]) | uint16(m.Bus.Mem[sp+1])<<8
+				pushed := uint16(peek(sp)) | uint16(peek(sp+1))<<8
 				off := pushed - si.Before.PC
 				switch {
 				case off == 0:
 				case int(off) == len(si.Req.Data):
 					env.KnownFinding("im0-resume-offset-eq-len", fmt.Sprintf("PC=%04x data=%x pushed=%04x", si.Before.PC, si.Req.Data, pushed))
 					// repair the two stack bytes as the environment and go on
-					m.Bus.Mem[sp] = uint8(si.Before.PC)
-					m.Bus.Mem[sp+1] = uint8(si.Before.PC >> 8)
+					poke(sp, uint8(si.Before.PC))
+					poke(sp+1, uint8(si.Before.PC>>8))
 				default:
 					return nil, viol("im0-resume-address", "mode-0 acceptance at PC=%04x with data %x pushed %04x (offset %d is neither 0 nor len(data))", si.Before.PC, si.Req.Data, pushed, int16(off))
 				}
@@ -300,6 +337,27 @@ func c07Run(sc *C07Sc, evs []world.Event, budget int, env *Env) (*c07Final, *Vio
 		if si.Halted && m.CPU.PC == sc.Prog.HaltAddr && m.Quiescent() {
 			break
 		}
+	}
+	if m.StaleCount() != 0 {
+		return nil, viol("stale-device", "%d accesses went to a Memory/IO value the host had already replaced", m.StaleCount())
+	}
+	// an NMI is always accepted: none of the raised ones may be lost
+	nmiRaised, nmiAcc := 0, 0
+	for k, v := range m.Raised {
+		if strings.HasSuffix(k, "/"+world.EvNMI) {
+			nmiRaised += v
+		}
+	}
+	for _, k := range m.AccKinds {
+		if k == world.EvNMI {
+			nmiAcc++
+		}
+	}
+	if nmiAcc != nmiRaised {
+		return nil, viol("nmi-lost", "%d NMI requests were raised, %d accepted by the time the program was parked with nothing pending", nmiRaised, nmiAcc)
+	}
+	if dm != nil {
+		copy(m.Bus.Mem[:], dm)
 	}
 	f.st, f.halt, f.mem, f.ports, f.steps = m.CPU.States, m.CPU.HALT, &m.Bus.Mem, m.Bus.PortLog, m.Steps
 	f.accSP, f.nAcc, f.slot, f.ticks = m.AccSP, m.Accepted, m.CPU.Interrupt, m.Bus.Tick
